@@ -54,17 +54,31 @@ const SCALING_FACTOR: f64 = 2.6;
 struct Case {
     family: String,
     p: Vec<u64>,
+    /// "" = `Options::default()`; "no-budget" = `Options::default()` with `budget: None`
+    #[serde(default)]
+    mode: String,
 }
 
 impl Case {
     fn new(family: &str, p: &[u64]) -> Case {
-        Case { family: family.into(), p: p.to_vec() }
+        Case { family: family.into(), p: p.to_vec(), mode: String::new() }
+    }
+    fn nb(family: &str, p: &[u64]) -> Case {
+        Case { family: family.into(), p: p.to_vec(), mode: "no-budget".into() }
+    }
+    fn no_budget(&self) -> bool {
+        self.mode == "no-budget"
     }
     fn product(&self) -> u64 {
         self.p.iter().fold(1u64, |a, b| a.saturating_mul((*b).max(1)))
     }
     fn id(&self) -> String {
-        format!("{}({})", self.family, self.p.iter().map(|x| x.to_string()).collect::<Vec<_>>().join(","))
+        format!(
+            "{}({}){}",
+            self.family,
+            self.p.iter().map(|x| x.to_string()).collect::<Vec<_>>().join(","),
+            if self.mode.is_empty() { String::new() } else { format!("@{}", self.mode) }
+        )
     }
     /// family name used in signatures (layout variants of one family share it)
     fn sig_family(&self) -> &str {
@@ -76,7 +90,12 @@ impl Case {
     /// indices of the parameters in which input size and counted events are (at most) linear
     fn linear_params(&self) -> &'static [usize] {
         match self.family.as_str() {
-            "nested-anchors-flow" | "nested-anchors-block" => &[0, 1],
+            "nested-anchors-flow" => &[0, 1],
+            // block nesting: the input itself is quadratic in d (indentation)
+            "nested-anchors-block" => &[1],
+            "inner-open" => &[0, 1, 2],
+            "redefine" => &[1],
+            "stream-replay-reset" => &[0],
             "alias-run" => &[0],
             "aliases-in-anchored" => &[0, 1],
             "wide-merge-distinct" | "wide-merge-same" => &[0, 1],
@@ -223,6 +242,71 @@ fn build(c: &Case) -> String {
                 }
             }
         }
+        // an inner anchor (k scalars) aliased m times while the outer anchor is still open; the outer one aliased r times
+        "inner-open" => {
+            let (k, m, r) = (p[0], p[1], p[2]);
+            s.push_str("- &o [&i [");
+            for i in 0..k {
+                if i > 0 {
+                    s.push(',');
+                }
+                s.push('1');
+            }
+            s.push(']');
+            for _ in 0..m {
+                s.push_str(", *i");
+            }
+            s.push_str(", 1]\n");
+            for _ in 0..r {
+                s.push_str("- *o\n");
+            }
+        }
+        // d levels, each anchored, each holding the next level and an alias to it (aliased while the parent is
+        // open); innermost level k scalars; the outermost aliased once: expansion k * 2^d
+        "nested-reuse" => {
+            let (d, k) = (p[0], p[1]);
+            s.push_str("- ");
+            for i in 0..d {
+                s.push_str(&format!("&l{i} ["));
+            }
+            s.push_str(&format!("&l{d} ["));
+            for i in 0..k {
+                if i > 0 {
+                    s.push(',');
+                }
+                s.push('1');
+            }
+            s.push(']');
+            for i in (0..d).rev() {
+                s.push_str(&format!(", *l{}]", i + 1));
+            }
+            s.push_str("\n- *l0\n");
+        }
+        // the same name re-defined r times with growing payloads (k, 2k, …), aliased after each definition
+        "redefine" => {
+            let (r, k) = (p[0], p[1]);
+            for j in 0..r {
+                s.push_str("- &a [");
+                for i in 0..(k * (j + 1)) {
+                    if i > 0 {
+                        s.push(',');
+                    }
+                    s.push('1');
+                }
+                s.push_str("]\n- *a\n");
+            }
+        }
+        // s documents, each `aliases-in-anchored(n, k)`: the alias limits are per document
+        "stream-replay-reset" => {
+            let (docs, n, k) = (p[0], p[1], p[2]);
+            let one = build(&Case::new("aliases-in-anchored", &[n, k]));
+            for i in 0..docs {
+                if i > 0 {
+                    s.push_str("---\n");
+                }
+                s.push_str(&one);
+            }
+        }
         other => panic!("unknown family {other}"),
     }
     s
@@ -342,13 +426,28 @@ struct Measured {
     mem_report_events: Option<u64>,
 }
 
-fn options_default_with_report() -> (serde_saphyr::Options, std::rc::Rc<std::cell::RefCell<Option<(u64, u64)>>>) {
+fn options_default_with_report(no_budget: bool) -> (serde_saphyr::Options, std::rc::Rc<std::cell::RefCell<Option<(u64, u64)>>>) {
     let got = std::rc::Rc::new(std::cell::RefCell::new(None));
     let g2 = got.clone();
-    let o = serde_saphyr::Options::default().with_budget_report(move |r| {
+    let mut o = serde_saphyr::Options::default().with_budget_report(move |r| {
         *g2.borrow_mut() = Some((r.events as u64, r.nodes as u64));
     });
+    if no_budget {
+        #[allow(deprecated)]
+        {
+            o.budget = None;
+        }
+    }
     (o, got)
+}
+
+/// The call under measurement: a stream ("\n---\n" inside) goes through the multi-document entry point.
+fn run_sink(text: &str, opts: serde_saphyr::Options) -> Result<(), serde_saphyr::Error> {
+    if text.contains("\n---\n") {
+        serde_saphyr::from_multiple_with_options::<Sink>(text, opts).map(|_| ())
+    } else {
+        serde_saphyr::from_str_with_options::<Sink>(text, opts).map(|_| ())
+    }
 }
 
 /// Monitored run of `from_str_with_options::<Sink>` under `opts`.
@@ -360,27 +459,17 @@ fn run_monitored(
     #[allow(deprecated)]
     let lim = MonLimits::of(&opts.alias_limits);
     counting::reset();
-    // a stream ("\n---\n" inside) goes through the multi-document entry point
-    let multi = text.contains("\n---\n");
-    let (r, mon) = bm::monitor(lim, anchor_capacity, || {
-        vcore::obs::catch(|| {
-            if multi {
-                outcome_of(&serde_saphyr::from_multiple_with_options::<Sink>(text, opts))
-            } else {
-                outcome_of(&serde_saphyr::from_str_with_options::<Sink>(text, opts))
-            }
-        })
-    });
+    let (r, mon) = bm::monitor(lim, anchor_capacity, || vcore::obs::catch(|| outcome_of(&run_sink(text, opts))));
     (r, Mon::of(&mon), counting::get())
 }
 
 /// Both runs of one input under the default options. Runs on the calling thread
 /// (the allocator counts per thread).
-fn measure_default(text: &str) -> Measured {
+fn measure_default(text: &str, no_budget: bool) -> Measured {
     let mut m = Measured { input_bytes: text.len() as u64, ..Default::default() };
     // anchors are numbered densely by the parser; '&' count bounds the ids without parsing
     let anchor_cap = text.bytes().filter(|b| *b == b'&').count();
-    let (o, got) = options_default_with_report();
+    let (o, got) = options_default_with_report(no_budget);
     let (r, mon, callbacks) = run_monitored(text, o, anchor_cap);
     m.mon = mon;
     m.callbacks = callbacks;
@@ -396,9 +485,9 @@ fn measure_default(text: &str) -> Measured {
         m.report_nodes = Some(n);
     }
     // run 2: nothing installed, nothing allocated by the harness between reset and stats
-    let (o, got) = options_default_with_report();
+    let (o, got) = options_default_with_report(no_budget);
     let base = vcore::obs::alloc_reset();
-    let r = vcore::obs::catch(|| serde_saphyr::from_str_with_options::<Sink>(text, o));
+    let r = vcore::obs::catch(|| run_sink(text, o));
     let st = vcore::obs::alloc_stats(base);
     match &r {
         Ok(r) => m.mem_out = outcome_of(r),
@@ -415,13 +504,13 @@ fn measure_default(text: &str) -> Measured {
 // ------------------------------------------------------------------ verdicts for one attack case
 
 /// Limits of `Options::default()` that the reference expansion exceeds: (kind, budget field).
-fn exceeded_defaults(m: &StreamModel) -> Vec<(&'static str, Option<&'static str>)> {
+fn exceeded_defaults(m: &StreamModel, no_budget: bool) -> Vec<(&'static str, Option<&'static str>)> {
     let b = serde_saphyr::Budget::default();
     let al = serde_saphyr::options::AliasLimits::default();
     let mut v = Vec::new();
     let a = &m.all;
     let mut bf = |cond: bool, f: &'static str| {
-        if cond {
+        if cond && !no_budget {
             v.push(("Budget", Some(f)));
         }
     };
@@ -457,8 +546,9 @@ struct Judged {
 }
 
 fn judge(run: &Run, c: &Case, text: &str, model: &StreamModel, ms: &Measured, via: &str) -> Option<Judged> {
-    let case = || json!({"kind": "family", "family": c.family, "p": c.p});
-    let fam = c.sig_family().to_string();
+    let case = || json!({"kind": "family", "family": c.family, "p": c.p, "mode": c.mode});
+    let nb = c.no_budget();
+    let fam = if nb { format!("{}@no-budget", c.sig_family()) } else { c.sig_family().to_string() };
     if let Some(p) = &ms.panic {
         run.violation(&format!("C08:panic:{}", vcore::obs::panic_site(p)), case(), p.clone());
         return None;
@@ -484,14 +574,14 @@ fn judge(run: &Run, c: &Case, text: &str, model: &StreamModel, ms: &Measured, vi
             format!("shadow counter {what} = {v} above its limit {lim} at hook step {step}"),
         );
     }
-    if ms.callbacks > b.max_nodes as u64 {
+    if !nb && ms.callbacks > b.max_nodes as u64 {
         run.violation(
             &format!("C08:work:nodes-delivered:{fam}"),
             case(),
             format!("{} visitor callbacks > max_nodes {}", ms.callbacks, b.max_nodes),
         );
     }
-    if ms.mon.pumps() > b.max_events as u64 {
+    if !nb && ms.mon.pumps() > b.max_events as u64 {
         run.violation(
             &format!("C08:work:events-pumped:{fam}"),
             case(),
@@ -499,7 +589,7 @@ fn judge(run: &Run, c: &Case, text: &str, model: &StreamModel, ms: &Measured, vi
         );
     }
     // ---- acceptance under the default limits
-    let exceeded = exceeded_defaults(model);
+    let exceeded = exceeded_defaults(model, nb);
     if ms.out.ok {
         if let Some(why) = ms.mon.disagreement(model) {
             run.inconclusive(why);
@@ -788,6 +878,275 @@ fn check_tightened(run: &Run, text: &str, label: &str, loc: &mut BTreeMap<&'stat
     true
 }
 
+// ------------------------------------------------------------------ streams through the iterator, with documents that fail at the type level
+
+const POISON: &str = "POISON-VALUE";
+thread_local! {
+    static ARMED: std::cell::Cell<bool> = const { std::cell::Cell::new(true) };
+}
+
+/// `counting::Sink` that (while armed) rejects the scalar `POISON-VALUE` with a custom error — a
+/// deserialization failure raised from inside whatever containers (and anchor recordings) are open.
+struct PSink;
+struct PSinkVisitor;
+fn bump() {
+    counting::CALLBACKS.with(|c| c.set(c.get() + 1));
+}
+impl<'de> serde::de::Visitor<'de> for PSinkVisitor {
+    type Value = PSink;
+    fn expecting(&self, f: &mut std::fmt::Formatter) -> std::fmt::Result {
+        f.write_str("anything but the poison value")
+    }
+    fn visit_unit<E>(self) -> Result<PSink, E> {
+        bump();
+        Ok(PSink)
+    }
+    fn visit_bool<E>(self, _: bool) -> Result<PSink, E> {
+        bump();
+        Ok(PSink)
+    }
+    fn visit_i64<E>(self, _: i64) -> Result<PSink, E> {
+        bump();
+        Ok(PSink)
+    }
+    fn visit_u64<E>(self, _: u64) -> Result<PSink, E> {
+        bump();
+        Ok(PSink)
+    }
+    fn visit_f64<E>(self, _: f64) -> Result<PSink, E> {
+        bump();
+        Ok(PSink)
+    }
+    fn visit_str<E: serde::de::Error>(self, v: &str) -> Result<PSink, E> {
+        bump();
+        if v == POISON && ARMED.with(|a| a.get()) {
+            return Err(E::custom(format!("{POISON} is not acceptable here")));
+        }
+        Ok(PSink)
+    }
+    fn visit_bytes<E>(self, _: &[u8]) -> Result<PSink, E> {
+        bump();
+        Ok(PSink)
+    }
+    fn visit_seq<A: serde::de::SeqAccess<'de>>(self, mut a: A) -> Result<PSink, A::Error> {
+        bump();
+        while a.next_element::<PSink>()?.is_some() {}
+        Ok(PSink)
+    }
+    fn visit_map<A: serde::de::MapAccess<'de>>(self, mut a: A) -> Result<PSink, A::Error> {
+        bump();
+        while a.next_key::<PSink>()?.is_some() {
+            a.next_value::<PSink>()?;
+        }
+        Ok(PSink)
+    }
+}
+impl<'de> serde::Deserialize<'de> for PSink {
+    fn deserialize<D: serde::Deserializer<'de>>(d: D) -> Result<PSink, D::Error> {
+        d.deserialize_any(PSinkVisitor)
+    }
+}
+
+/// Item kinds of `read_with_options::<_, PSink>`: "Ok", "Poison", or the effective error kind.
+fn iter_items(text: &str, opts: serde_saphyr::Options, armed: bool, anchor_cap: usize, cap: usize) -> (Result<Vec<String>, String>, Mon) {
+    #[allow(deprecated)]
+    let lim = MonLimits::of(&opts.alias_limits);
+    let was = ARMED.with(|a| a.replace(armed));
+    let (r, mon) = bm::monitor(lim, anchor_cap, || {
+        vcore::obs::catch(|| {
+            let mut rd = text.as_bytes();
+            let mut v = Vec::new();
+            for it in serde_saphyr::read_with_options::<_, PSink>(&mut rd, opts) {
+                v.push(match it {
+                    Ok(_) => "Ok".to_string(),
+                    Err(e) => {
+                        let k = bm::effective_kind(&e);
+                        if !k.wrapped && (k.kind == "Message" || k.kind == "AliasError") && e.to_string().contains(POISON) {
+                            "Poison".to_string()
+                        } else {
+                            k.kind
+                        }
+                    }
+                });
+                if v.len() >= cap {
+                    break;
+                }
+            }
+            v
+        })
+    });
+    ARMED.with(|a| a.set(was));
+    (r, Mon::of(&mon))
+}
+
+/// Per-document alias limits through the streaming iterator, also right after documents that failed at
+/// the type level: each limit at the value measured on the whole stream must change nothing, one below
+/// must produce that limit's error and leave every earlier item as it was.
+fn check_stream_iter(run: &Run, docs: &[String], loc: &mut BTreeMap<&'static str, u64>) {
+    let text = docs.join("---\n");
+    let case = |extra: serde_json::Value| json!({"kind": "stream", "docs": docs, "limits": extra});
+    let Ok(model) = bm::model(&text) else {
+        run.inconclusive("generator-invalid: raw parser rejects the stream");
+        return;
+    };
+    if model.docs.len() != docs.len() || model.flags.unresolved_alias || model.all.aliases == 0 {
+        *loc.entry("skipped/stream-unusable").or_insert(0) += 1;
+        return;
+    }
+    let poisoned: Vec<bool> = docs.iter().map(|d| d.contains(POISON)).collect();
+    const U: usize = usize::MAX;
+    let cap = docs.len() + 3;
+    // guard: poison disarmed, everything is consumed, the trace must equal the model
+    run.eval();
+    let (r, mon0) = iter_items(&text, alias_opts(U, U, U, bm::unlimited_budget()), false, model.max_anchor_id, cap);
+    match r {
+        Err(p) => {
+            run.violation(&format!("C08:panic:{}", vcore::obs::panic_site(&p)), case(json!("unlimited")), p);
+            return;
+        }
+        Ok(items) => {
+            if items.len() != docs.len() || items.iter().any(|k| k != "Ok") {
+                *loc.entry("skipped/stream-unlimited-run-fails").or_insert(0) += 1;
+                return;
+            }
+        }
+    }
+    if let Some(why) = mon0.disagreement(&model) {
+        run.inconclusive(why);
+        return;
+    }
+    // baseline with the poison armed
+    run.eval();
+    let (r, mon) = iter_items(&text, alias_opts(U, U, U, bm::unlimited_budget()), true, model.max_anchor_id, cap);
+    let base = match r {
+        Err(p) => {
+            run.violation(&format!("C08:panic:{}", vcore::obs::panic_site(&p)), case(json!("unlimited")), p);
+            return;
+        }
+        Ok(v) => v,
+    };
+    let want: Vec<&str> = poisoned.iter().map(|p| if *p { "Poison" } else { "Ok" }).collect();
+    if base != want {
+        // a document after a failing one is affected although nothing limits anything
+        if let Some(i) = (0..base.len().max(want.len())).find(|&i| base.get(i).map(|s| s.as_str()) != want.get(i).copied())
+            && (0..i).any(|k| poisoned[k])
+            && !poisoned.get(i).copied().unwrap_or(false)
+        {
+            run.violation(
+                "C08:stream:document-after-failed-one-affected",
+                case(json!("unlimited")),
+                format!("every limit off: items {base:?}, expected {want:?}"),
+            );
+        } else {
+            run.inconclusive("poisoned document did not fail with the poison error");
+        }
+        return;
+    }
+    *loc.entry("verdict_capable_streams").or_insert(0) += 1;
+    if poisoned.iter().any(|p| *p) {
+        *loc.entry("streams_with_failing_documents").or_insert(0) += 1;
+    }
+    // measured on the armed run (a failing document replays only a prefix): between the model's values for
+    // the documents that complete and for all documents
+    let (r_meas, e_meas, d_meas) = (mon.max_replayed_since_reset, mon.max_expansions_per_anchor, mon.max_inject_depth);
+    if r_meas > model.max_replayed_per_doc || e_meas > model.max_expansions_per_anchor || d_meas > 1 {
+        run.inconclusive("model/trace: armed run replayed more than the model has");
+        return;
+    }
+    if mon.alias_pushes == 0 {
+        return;
+    }
+    let um = U as u64;
+    let mut probes: Vec<(&'static str, [u64; 3], Option<&'static str>, bool)> = Vec::new();
+    for nb in [false, true] {
+        probes.push(("replayed=R", [r_meas, um, um], None, nb));
+        if r_meas >= 1 {
+            probes.push(("replayed=R-1", [r_meas - 1, um, um], Some("AliasReplayLimitExceeded"), nb));
+        }
+        probes.push(("per-anchor=E", [um, um, e_meas], None, nb));
+        probes.push(("per-anchor=E-1", [um, um, e_meas - 1], Some("AliasExpansionLimitExceeded"), nb));
+        probes.push(("stack=D", [um, d_meas, um], None, nb));
+        probes.push(("stack=D-1", [um, d_meas - 1, um], Some("AliasReplayStackDepthExceeded"), nb));
+        probes.push(("all-three-at-measured", [r_meas, d_meas, e_meas], None, nb));
+    }
+    for (name, l, want_kind, nb) in probes {
+        run.eval();
+        let mut o = alias_opts(l[0] as usize, l[1] as usize, l[2] as usize, bm::unlimited_budget());
+        if nb {
+            #[allow(deprecated)]
+            {
+                o.budget = None;
+            }
+        }
+        let lim = json!({"probe": name, "budget": if nb { "none" } else { "unlimited" }, "max_total_replayed_events": l[0], "max_replay_stack_depth": l[1], "max_alias_expansions_per_anchor": l[2]});
+        let (r, mon) = iter_items(&text, o, true, model.max_anchor_id, cap);
+        let items = match r {
+            Err(p) => {
+                run.violation(&format!("C08:panic:{}", vcore::obs::panic_site(&p)), case(lim), p);
+                continue;
+            }
+            Ok(v) => v,
+        };
+        let tag = if nb { "no-budget:" } else { "" };
+        if let Some((what, v, limv, step)) = &mon.step_violation {
+            run.violation(
+                &format!("C08:step:{what}:stream"),
+                case(lim.clone()),
+                format!("shadow counter {what} = {v} above its limit {limv} at hook step {step} (probe {tag}{name})"),
+            );
+        }
+        match want_kind {
+            None => {
+                if items == base {
+                    *loc.entry("stream_acceptance/at_measured_same_items").or_insert(0) += 1;
+                } else {
+                    let after_failed = (0..items.len().max(base.len()))
+                        .find(|&i| items.get(i) != base.get(i))
+                        .is_some_and(|i| (0..i).any(|k| poisoned[k]));
+                    run.violation(
+                        &format!(
+                            "C08:stream:false-rejection:{tag}{name}{}",
+                            if after_failed { ":after-failed-document" } else { "" }
+                        ),
+                        case(lim),
+                        format!("limits at the values measured on this stream: items {items:?}, without limits {base:?}"),
+                    );
+                }
+            }
+            Some(k) => {
+                // the first item that is neither Ok nor the poison error must be this limit's error, and
+                // everything before it unchanged
+                let first = items.iter().position(|s| s != "Ok" && s != "Poison");
+                match first {
+                    Some(i) if items[i] == k && items[..i] == base[..i] => {
+                        *loc.entry("stream_acceptance/below_measured_err").or_insert(0) += 1;
+                        run.observe("stream_limit_error_kinds", k);
+                    }
+                    Some(i) if items[i] != k => run.violation(
+                        &format!("C08:stream:wrong-kind:{tag}{name}"),
+                        case(lim),
+                        format!("expected {k}, items {items:?}"),
+                    ),
+                    Some(_) => run.violation(
+                        &format!("C08:stream:earlier-items-changed:{tag}{name}"),
+                        case(lim),
+                        format!("items {items:?}, without limits {base:?}"),
+                    ),
+                    None => run.violation(
+                        &format!("C08:stream:not-enforced:{tag}{name}"),
+                        case(lim),
+                        format!("limit one below the value measured on this stream, expected {k}, items {items:?}"),
+                    ),
+                }
+            }
+        }
+    }
+    if mon.pumps_replay >= 1 {
+        let parts: Vec<&[u8]> = docs.iter().map(|d| d.as_bytes()).collect();
+        run.nontrivial(fnv_parts(&parts) ^ 0x73_7472_6561_6d);
+    }
+}
+
 // ------------------------------------------------------------------ generated documents (same generator as C02/C07)
 
 fn random_decorated(rng: &mut Rng) -> Node {
@@ -856,24 +1215,58 @@ fn grid(tier: Tier) -> Vec<Case> {
     } {
         v.push(Case::new("aliases-in-anchored", &[n, k]));
     }
-    // anchors nested d deep around n nodes; d*n capped so that the expected peak stays under ~1.5 GiB
-    let cap: u64 = if q { 1_300_000 } else { 6_500_000 };
-    let ds_flow: &[u64] = if q { &[1, 4, 16, 32, 64, 250] } else { &[1, 2, 4, 8, 16, 32, 64, 125, 250] };
-    let ns: &[u64] = if q { &[100, 1000, 10_000, 20_000, 100_000] } else { &[100, 1000, 10_000, 20_000, 40_000, 100_000, 200_000] };
+    // anchors nested d deep around n nodes (flow nesting is cut at ~255 by the parser, block depth by max_depth 2000)
+    let ds_flow: &[u64] = if q { &[1, 4, 16, 32, 64, 125, 250] } else { &[1, 2, 4, 8, 16, 32, 64, 125, 250] };
+    let ns: &[u64] = if q { &[100, 1000, 10_000, 20_000, 100_000, 200_000] } else { &[100, 1000, 10_000, 20_000, 40_000, 50_000, 100_000, 200_000] };
     for &d in ds_flow {
         for &n in ns {
-            if d * n <= cap {
-                v.push(Case::new("nested-anchors-flow", &[d, n]));
-            }
+            v.push(Case::new("nested-anchors-flow", &[d, n]));
         }
     }
-    let ds_block: &[u64] = if q { &[4, 500, 1000] } else { &[1, 4, 16, 64, 250, 500, 1000] };
+    let ds_block: &[u64] = if q { &[4, 250, 500, 1000, 1900] } else { &[1, 4, 16, 64, 250, 500, 950, 1000, 1900] };
     for &d in ds_block {
-        for &n in if q { &[100u64, 1000][..] } else { &[100u64, 1000, 2000, 4000, 100_000][..] } {
-            if d * n <= cap {
-                v.push(Case::new("nested-anchors-block", &[d, n]));
-            }
+        for &n in if q { &[100u64, 1000, 100_000, 200_000][..] } else { &[100u64, 1000, 2000, 4000, 50_000, 100_000, 200_000][..] } {
+            v.push(Case::new("nested-anchors-block", &[d, n]));
         }
+    }
+    // inner anchor aliased while the outer one is open
+    for &(k, m, r) in if q {
+        &[(10u64, 10u64, 10u64), (100, 10, 10), (200, 10, 10), (100, 20, 10), (100, 10, 20), (1000, 50, 1), (1000, 100, 4)][..]
+    } else {
+        &[(10u64, 10u64, 10u64), (100, 10, 10), (200, 10, 10), (100, 20, 10), (100, 10, 20), (400, 10, 10), (100, 40, 10), (100, 10, 40), (1000, 50, 1), (2000, 50, 1), (1000, 100, 1), (1000, 50, 2), (1000, 100, 4), (1, 1, 50_000), (50_000, 1, 1), (1, 50_000, 1)][..]
+    } {
+        v.push(Case::new("inner-open", &[k, m, r]));
+        v.push(Case::nb("inner-open", &[k, m, r]));
+    }
+    for &d in if q { &[1u64, 4, 8, 12, 16, 17, 64, 200][..] } else { &[1u64, 2, 4, 6, 8, 10, 12, 14, 15, 16, 17, 18, 19, 20, 32, 64, 128, 200][..] } {
+        for &k in if q { &[1u64, 100][..] } else { &[1u64, 10, 100, 1000][..] } {
+            v.push(Case::new("nested-reuse", &[d, k]));
+            v.push(Case::nb("nested-reuse", &[d, k]));
+        }
+    }
+    for &(r, k) in if q { &[(2u64, 100u64), (10, 100), (10, 200), (100, 10), (500, 2)][..] } else { &[(2u64, 100u64), (10, 100), (10, 200), (10, 400), (20, 100), (100, 10), (100, 20), (500, 2), (1000, 1)][..] } {
+        v.push(Case::new("redefine", &[r, k]));
+        v.push(Case::nb("redefine", &[r, k]));
+    }
+    // the alias limits are per document: each document replays ~590k (< 1M) resp. ~1.02M (> 1M) events
+    for &(docs, n, k) in if q { &[(1u64, 2900u64, 100u64), (2, 2900, 100), (4, 2900, 100), (2, 5000, 100), (3, 100, 100)][..] } else { &[(1u64, 2900u64, 100u64), (2, 2900, 100), (3, 2900, 100), (4, 2900, 100), (8, 2900, 100), (1, 5000, 100), (2, 5000, 100), (3, 100, 100), (6, 100, 100), (50, 10, 10), (100, 10, 10)][..] } {
+        v.push(Case::nb("stream-replay-reset", &[docs, n, k]));
+        v.push(Case::new("stream-replay-reset", &[docs, n, k]));
+    }
+    // the classic families once more without a budget: only the alias limits stand between the input and the target
+    for &f in if q { &[2u64, 10][..] } else { &[2u64, 3, 5, 10][..] } {
+        for &l in if q { &[3u64, 6, 9][..] } else { &[2u64, 3, 4, 5, 6, 7, 8, 9][..] } {
+            v.push(Case::nb("bomb", &[f, l]));
+        }
+    }
+    for &n in if q { &[100u64, 5000][..] } else { &[10u64, 100, 500, 1000, 2000, 5000][..] } {
+        v.push(Case::nb("chain", &[n]));
+    }
+    for &n in if q { &[1000u64, 50_000][..] } else { &[100u64, 1000, 2000, 50_000, 200_000][..] } {
+        v.push(Case::nb("alias-run", &[n]));
+    }
+    for &(n, k) in if q { &[(100u64, 100u64), (1000, 100), (5000, 100)][..] } else { &[(100u64, 100u64), (200, 100), (1000, 100), (2000, 100), (4000, 100), (5000, 100), (10, 40_000), (10, 60_000)][..] } {
+        v.push(Case::nb("aliases-in-anchored", &[n, k]));
     }
     for fam in ["wide-merge-distinct", "wide-merge-same"] {
         for &(k, m) in if q {
@@ -928,7 +1321,7 @@ fn child_main(arg: &str) -> ! {
         .stack_size(512 << 20)
         .spawn(move || {
             let text = build(&c);
-            measure_default(&text)
+            measure_default(&text, c.no_budget())
         })
         .expect("spawn");
     match h.join() {
@@ -953,6 +1346,7 @@ fn main() {
                 let c = Case {
                     family: case["family"].as_str().unwrap_or("").to_string(),
                     p: case["p"].as_array().map(|a| a.iter().filter_map(|x| x.as_u64()).collect()).unwrap_or_default(),
+                    mode: case["mode"].as_str().unwrap_or("").to_string(),
                 };
                 let text = build(&c);
                 match bm::model(&text) {
@@ -964,6 +1358,12 @@ fn main() {
                     },
                     Err(e) => run.inconclusive(&e),
                 }
+            }
+            Some("stream") => {
+                let docs: Vec<String> =
+                    case["docs"].as_array().map(|a| a.iter().filter_map(|s| s.as_str().map(String::from)).collect()).unwrap_or_default();
+                let mut loc = BTreeMap::new();
+                check_stream_iter(&run, &docs, &mut loc);
             }
             _ => {
                 let text = case["text"].as_str().unwrap_or("").to_string();
@@ -1005,7 +1405,7 @@ fn main() {
     par_range(light.len(), |i| {
         let p = light[i];
         run.evals(2);
-        let ms = measure_default(&p.text);
+        let ms = measure_default(&p.text, p.c.no_budget());
         if let Some(j) = judge(&run, &p.c, &p.text, &p.model, &ms, "in-process") {
             results.lock().unwrap().insert(p.c.id(), (p.c.clone(), j));
         }
@@ -1013,11 +1413,11 @@ fn main() {
             run.sample(|| json!({"family": p.c.family, "p": p.c.p, "input_bytes": p.text.len(), "peak": ms.peak, "outcome": if ms.out.ok {"Ok".to_string()} else {ms.out.kind.clone()}, "model_events": p.model.all.events}));
         }
     });
-    // heavy members: child processes, at most 3 at a time
+    // heavy members: child processes, at most 4 at a time
     {
         let next = std::sync::atomic::AtomicUsize::new(0);
         std::thread::scope(|s| {
-            for _ in 0..3.min(heavy.len()) {
+            for _ in 0..4.min(heavy.len()) {
                 s.spawn(|| {
                     loop {
                         let i = next.fetch_add(1, std::sync::atomic::Ordering::Relaxed);
@@ -1060,7 +1460,7 @@ fn main() {
                         if ratio > SCALING_FACTOR {
                             run.violation(
                                 &format!("C08:memory-scaling:{}:p{pi}", c.sig_family()),
-                                json!({"kind": "family", "family": c2.family, "p": c2.p, "half": c.p}),
+                                json!({"kind": "family", "family": c2.family, "p": c2.p, "mode": c2.mode, "half": c.p}),
                                 format!("peak {} B at {} vs {} B at {}: x{ratio:.2} for a doubled parameter (limit x{SCALING_FACTOR}); counted events {} vs {}", j2.peak, c2.id(), j.peak, c.id(), j2.counted, j.counted),
                             );
                         }
@@ -1078,7 +1478,7 @@ fn main() {
     run.note(format!("phase 1 (families) done at {:.1}s", run.elapsed_s()));
 
     // ---- 2. acceptance at measured / measured-1: small family members and generated documents
-    let small: Vec<&Prepared> = prepared.iter().filter(|p| p.model.all.events <= 60_000 && p.model.docs.len() == 1).collect();
+    let small: Vec<&Prepared> = prepared.iter().filter(|p| p.model.all.events <= 60_000 && !p.c.no_budget()).collect();
     run.count("tightened_family_members", small.len() as u64);
     par_range(small.len(), |i| {
         let mut loc = BTreeMap::new();
@@ -1086,11 +1486,92 @@ fn main() {
         check_tightened(&run, &small[i].text, &fam, &mut loc);
         run.count_map(&loc);
     });
-    let n_random = tier.pick(8_000, 150_000);
+    // exhaustive nested-anchor documents (sequence-only trees, <= 3 anchors x <= 3 aliases over {a, b}): an inner
+    // anchor aliased while the outer one is open, aliases inside anchored containers followed by aliases to
+    // those containers, re-defined names
+    let nested_nodes = tier.pick(6, 7);
+    let ro0 = RenderOpts::new();
+    let mut seq_bases: Vec<(Node, usize)> = Vec::new();
+    for n in 2..=nested_nodes {
+        seq_bases.extend(vcore::aliasgen::seq_trees(n).into_iter().map(|t| (t, 3)));
+    }
+    // one node more with <= 2 anchors x <= 2 aliases
+    seq_bases.extend(vcore::aliasgen::seq_trees(nested_nodes + 1).into_iter().map(|t| (t, 2)));
+    run.count("nested_family_base_trees", seq_bases.len() as u64);
+    let nested_pool: Mutex<Vec<String>> = Mutex::new(Vec::new());
+    par_range(seq_bases.len(), |i| {
+        let mut loc = BTreeMap::new();
+        let (base, marks) = &seq_bases[i];
+        for (j, d) in vcore::aliasgen::decorate(base, *marks, *marks, &["a", "b"]).iter().enumerate() {
+            for flow in [false, true] {
+                let mut d = d.clone();
+                d.set_flow(flow);
+                let Some((text, _)) = render_checked(&d, &ro0) else {
+                    run.inconclusive("generator-invalid: document not parsed as intended");
+                    continue;
+                };
+                *loc.entry("nested_family_cases").or_insert(0) += 1;
+                check_tightened(&run, &text, "nested-exhaustive", &mut loc);
+                if !flow && (i * 131 + j) % 61 == 0 {
+                    nested_pool.lock().unwrap().push(text);
+                }
+            }
+        }
+        run.count_map(&loc);
+    });
+    let mut nested_pool = nested_pool.into_inner().unwrap();
+    nested_pool.sort();
+    run.note(format!("phase 2a (family members, exhaustive nested-anchor documents) done at {:.1}s", run.elapsed_s()));
+
+    // streams through the iterator: per-document resets, also after documents that fail at the type level
+    let n_streams = tier.pick(500_000, 3_000_000);
+    par_range(n_streams, |i| {
+        let mut rng = Rng::stream(run.seed ^ 0x0073_7472, i as u64);
+        let mut loc = BTreeMap::new();
+        let len = rng.range(2, 5);
+        let docs: Vec<String> = (0..len)
+            .map(|_| {
+                let mut d = if rng.chance(2, 3) && !nested_pool.is_empty() {
+                    nested_pool[rng.below(nested_pool.len())].clone()
+                } else {
+                    let size = rng.range(5, 40);
+                    let t = vcore::aliasgen::random_resolvable(&mut rng, size, 5, 6);
+                    let nullish = matches!(&t, Node::Scalar { text, .. } if text == "~" || text.is_empty());
+                    match render_checked(&t, &ro0) {
+                        Some((s, _)) if !nullish => s,
+                        _ => "- &a x1\n- *a\n".to_string(),
+                    }
+                };
+                // every 4th document fails at the type level: one `x<i>` leaf becomes the poison
+                if rng.chance(1, 4) {
+                    let xs: Vec<usize> = d.match_indices('x').map(|(k, _)| k).filter(|&k| d[k + 1..].starts_with(|c: char| c.is_ascii_digit())).collect();
+                    if !xs.is_empty() {
+                        let k = *rng.pick(&xs);
+                        let end = d[k + 1..].find(|c: char| !c.is_ascii_digit()).map(|e| k + 1 + e).unwrap_or(d.len());
+                        d = format!("{}{POISON}{}", &d[..k], &d[end..]);
+                    }
+                }
+                d
+            })
+            .collect();
+        check_stream_iter(&run, &docs, &mut loc);
+        if i % 49_999 == 0 {
+            run.sample(|| json!({"stream": docs}));
+        }
+        run.count_map(&loc);
+    });
+    run.note(format!("phase 2b (streams through the iterator) done at {:.1}s", run.elapsed_s()));
+
+    let n_random = tier.pick(1_000_000, 6_000_000);
     par_range(n_random, |i| {
         let mut rng = Rng::stream(run.seed, i as u64);
         let mut loc = BTreeMap::new();
-        let t = random_decorated(&mut rng);
+        let t = if i % 2 == 0 {
+            random_decorated(&mut rng)
+        } else {
+            let size = rng.range(10, 120);
+            vcore::aliasgen::random_resolvable(&mut rng, size, 7, 12)
+        };
         let mut t = t;
         if rng.chance(1, 3) {
             t.set_flow(true);
@@ -1102,7 +1583,12 @@ fn main() {
                 // every 4th case is a stream of 2..4 documents: the alias limits are per document
                 if i % 4 == 3 {
                     for _ in 0..rng.range(1, 3) {
-                        let t2 = random_decorated(&mut rng);
+                        let t2 = if rng.bool() {
+                            random_decorated(&mut rng)
+                        } else {
+                            let size = rng.range(6, 60);
+                            vcore::aliasgen::random_resolvable(&mut rng, size, 6, 8)
+                        };
                         if let Some((more, _)) = render_checked(&t2, &ro) {
                             if !text.ends_with('\n') {
                                 text.push('\n');
@@ -1113,7 +1599,7 @@ fn main() {
                     }
                 }
                 check_tightened(&run, &text, "generated", &mut loc);
-                if i % 1999 == 0 {
+                if i % 199_999 == 0 {
                     run.sample(|| json!({"text": text}));
                 }
             }
@@ -1127,13 +1613,16 @@ fn main() {
         "a case is non-trivial when the hook saw >= 1 replayed event or the product of the family parameters is >= 100; distinct by hash(family, parameters) / hash(text)",
     )
     .exhaustive(format!(
-        "the whole parameter grid of the tier ({} members): bomb f x l, chain n, alias-run n, aliases-in-anchored n x k, nested anchors d x n (flow d <= 250, block d <= 1000, d*n capped for memory), wide merges k x m (distinct / same keys), many small anchors n — each under Options::default(); every member with <= 60k expanded events additionally under each alias limit and max_nodes/max_events at measured and measured-1",
-        cases.len()
+        "(1) the whole parameter grid of the tier ({} members): bomb f x l, chain n, alias-run n, aliases-in-anchored n x k, nested anchors d x n (flow d <= 250, block d <= 1900, n <= 200000), inner-open k x m x r (inner anchor aliased m times while the outer is open, outer aliased r times), nested-reuse d x k (every level aliases the next while open), redefine r x k, stream-replay-reset docs x n x k, wide merges k x m (distinct / same keys), many small anchors n — under Options::default() and (bomb, chain, alias-run, aliases-in-anchored, inner-open, nested-reuse, redefine, stream-replay-reset) also with budget: None; every default-mode member with <= 60k expanded events additionally under each alias limit (with an unlimited budget and with budget: None) and max_nodes/max_events at measured and measured-1; (2) every sequence-only tree with 2..={} nodes x <= 3 anchors x 1..=3 aliases over names {{a, b}} (resolvable), and with {} nodes x <= 2 anchors x 1..=2 aliases, x {{block, flow}}, each under the same measured / measured-1 probes",
+        cases.len(),
+        nested_nodes,
+        nested_nodes + 1
     ))
     .assume("memory = peak live bytes of the calling thread, counting allocator, target allocates nothing (counting::Sink); bound 2 MiB + 256*input_bytes + 1024*counted_events as fixed in DESIGN.md")
     .assume("scaling law applied only to parameters in which a family's input and counted events are linear (not bomb f/l, not chain n)")
     .assume("a limit error raised during a replay arrives as AliasError{msg = rendering of the limit error}; it is accepted as that limit's error kind (counted)")
     .assume("verdicts only when the reference expansion equals the hook trace (pumps by source, replayed per document, expansions per anchor, nodes, depth, scalar bytes)")
-    .min_nontrivial(if tier == Tier::Quick { 1_000 } else { 10_000 });
+    .assume("read_with_options streams: after a deserialization (type-level) error the following documents are specified; nothing is after a limit or syntax error")
+    .min_nontrivial(if tier == Tier::Quick { 200_000 } else { 2_000_000 });
     run.finish(fin);
 }
